@@ -167,7 +167,7 @@ func MakeAnnotation(r *fw.Rng, L int, o AnnoOpts) Annotation {
 }
 
 func makeFeature(r *fw.Rng, L, i int, o AnnoOpts) (Feature, bool) {
-	f := Feature{ID: fmt.Sprintf("cds-%d", i), Name: fmt.Sprintf("%s%d", []string{"orf", "gene", "S", "N", "nsp"}[r.Intn(5)], i), Kind: "CDS", Strand: 1, CodonStart: r.Range(1, 3), LocForm: r.Intn(2)}
+	f := Feature{ID: fmt.Sprintf("cds-%d", i), Name: fmt.Sprintf("%s%d", []string{"orf", "gene", "S", "N", "nsp", "nsp7+", "ORF1a.b-", "E_"}[r.Intn(8)], i), Kind: "CDS", Strand: 1, CodonStart: r.Range(1, 3), LocForm: r.Intn(2)}
 	if r.Chance(0.6) {
 		f.CodonStart = 1
 	}
